@@ -548,3 +548,231 @@ def check_C16(ctx):
                             "random sentences of the grammar (depth<=4) with random optional whitespace and redundant parentheses, and 25 (quick) or all (thorough) single-edit mutations of each; compared: accept/reject and the parsed structure")
     ctx.assumptions += ["the ~1200-line pigeon runtime inside peg.go is modelled by the generic PEG interpreter (Acv/Model/Peg.lean); the semantic actions onExpression1/onTerm1/onFactor*/onIri1 are hand-modelled; both are tied by this correspondence"]
     return conclude(ctx, broken, trusted=TRUST_COMMON + ["grammar-table translators for peg.go and propertyparser.peg (harness/extract_peg.go)"])
+
+
+# ------------------------------------------------------------------ C13
+
+C13_THEOREMS = ["Acv.C13.lex_quote", "Acv.C13.lex_quote_append", "Acv.C13.lex_quote_string", "Acv.C13.quote_no_raw_quote",
+                "Acv.C13.quote_no_bare_quote", "Acv.C13.sprintf_escaped", "Acv.C13.sprintf_no_args", "Acv.C13.hex4_roundtrip"]
+C13_MESSAGE_THEOREMS = ["Acv.C13.parse_lengths", "Acv.C13.message_render", "Acv.C13.placeholders_verbatim"]
+
+
+def cmp_c13(case, i, m):
+    if "error" in m:
+        return ("model-error", "model driver rejected the case: " + m["error"])
+    if i.get("quoted") != m.get("quoted"):
+        bad = [k for k in m["quoted"] if i["quoted"].get(k) != m["quoted"][k]]
+        return ("quote", f"RegoString({bad[0]!r}) = {i['quoted'].get(bad[0])!r} but the proved quoting function gives {m['quoted'][bad[0]]!r}")
+    if not i.get("engineLexesBack"):
+        return ("engine-lex", "the engine's own lexer does not read a quoted literal back to the original string")
+    if i.get("msgFormat") != m.get("msgFormat") or i.get("msgVars") != m.get("msgVars"):
+        return ("message-parse", f"ParseMessageExpression({case['message']!r}) = ({i.get('msgFormat')!r}, {i.get('msgVars')}) but the model gives ({m.get('msgFormat')!r}, {m.get('msgVars')})")
+    if m["message"] != m["messageViaPolicy"]:
+        return ("model-self", "message model: policy-side rendering differs from the specification (message_render contradicted?)")
+    if i.get("outcome") != "ok":
+        return ("compile", f"profile name {case['name']!r}, validation {case['vname']!r}, message {case['message']!r}, list {case['listvals']}: {i.get('outcome')}: {str(i.get('err'))[:200]}")
+    if i["profileName"] != m["profileName"]:
+        return ("profileName", f"profileName {i['profileName']!r} instead of {m['profileName']!r}")
+    rs = i.get("results") or []
+    if [r["focus"] for r in rs] != ["http://ex.org/n/1"]:
+        return ("list-values", f"list values {case['listvals']} were not matched verbatim: reported nodes {[r['focus'] for r in rs]} (expected only n/1)")
+    if rs[0]["shape"] != m["shape"]:
+        return ("shape", f"sourceShapeName {rs[0]['shape']!r} instead of {m['shape']!r}")
+    if rs[0]["message"] != m["message"]:
+        return ("message", f"message template {case['message']!r} rendered as {rs[0]['message']!r}, expected {m['message']!r}")
+    return None
+
+
+def check_C13(ctx):
+    broken = []
+    try:
+        build_harness()
+    except Broken as b:
+        return conclude(ctx, [b])
+    thms = list(C13_THEOREMS)
+    if os.path.exists(os.path.join(LEAN, "Acv", "Props", "C13Message.lean")):
+        broken += prove(ctx, "Acv.Props.C13Message", C13_MESSAGE_THEOREMS)
+    broken += prove(ctx, "Acv.Props.C13", thms)
+    try:
+        corr(ctx, "c13", 400 if ctx.quick() else 12000, cmp_c13)
+        ctx.oblige("correspondence:c13 hostile text (quoting function, message parsing, end-to-end report fields)", not ctx.violations)
+    except Broken as b:
+        broken.append(b)
+    ctx.coverage["rule"] = ("strings assembled from a hostile alphabet (quotes, backslash, %, %v, %d, {{, }}, newline, tab, backtick, $, $message, control characters, DEL, non-ASCII, astral, language keywords) as profile name, "
+                            "validation name, message with 0..3 placeholders (known, missing, unknown-prefix, malformed) and in-list values; checked: RegoString vs the proved quote, the engine's lexer reading it back, "
+                            "ParseMessageExpression vs the model, and profileName/sourceShapeName/resultMessage/list matching in the real report")
+    ctx.assumptions += ["OPA's sprintf is modelled by sprintfModel on the verbs %% and %v (the only ones left after escaping)", "yaml.v3 decodes the double-quoted scalars the generator writes"]
+    return conclude(ctx, broken, trusted=TRUST_COMMON)
+
+
+# ------------------------------------------------------------------ C12
+
+C12_THEOREMS = ["Acv.C12.ids_nodup", "Acv.C12.ids_extend", "Acv.C12.join_injective", "Acv.C12.ids_good", "Acv.C12.topIds_shape",
+                "Acv.C12.topIds_nodup", "Acv.C12.report_ids_unique", "Acv.C12.document_ids_nodup", "Acv.C12.collision_without_wf"]
+
+
+def walk_ids(node, acc, depth=0, stats=None):
+    if isinstance(node, dict):
+        if "@id" in node and "@type" in node:    # report nodes are typed; {"@id": x} alone is a data link quoted in a trace
+            acc.append(node["@id"])
+        if stats is not None and "subResult" in node:
+            stats["maxdepth"] = max(stats.get("maxdepth", 0), depth + 1)
+        for k, v in node.items():
+            walk_ids(v, acc, depth + (1 if k == "subResult" else 0), stats)
+    elif isinstance(node, list):
+        for v in node:
+            walk_ids(v, acc, depth, stats)
+
+
+def check_result_shape(r, node_ids, names, nested=False):
+    """the property's last sentence, on one result of the real report"""
+    if not isinstance(r.get("focusNode"), str) or r["focusNode"] not in node_ids:
+        return f"focusNode {r.get('focusNode')!r} is not the @id of an input node"
+    shape = r.get("sourceShapeName")
+    if nested:
+        if shape != "nested":
+            return f"sub-result names validation {shape!r}, expected `nested`"
+    elif shape not in names:
+        return f"sourceShapeName {shape!r} is not a validation of the profile"
+    if not isinstance(r.get("resultMessage"), str) or r["resultMessage"] == "":
+        return "empty resultMessage"
+    tr = r.get("trace")
+    if not isinstance(tr, list) or not tr:
+        return "empty trace"
+    for t in tr:
+        if not t.get("component") or not isinstance(t.get("resultPath"), str):
+            return f"trace entry without component/path: {str(t)[:120]}"
+        tv = t.get("traceValue") or {}
+        for s in tv.get("subResult", []) or []:
+            e = check_result_shape(s, node_ids, names, nested=True)
+            if e:
+                return e
+    return None
+
+
+def check_C12(ctx):
+    broken = []
+    try:
+        build_harness()
+    except Broken as b:
+        return conclude(ctx, [b])
+    broken += prove(ctx, "Acv.Props.C12", C12_THEOREMS)
+    try:
+        lines = gen_cases("c12", 80 if ctx.quick() else 2500, ctx.seed * 1000 + 5)
+        impl = run_impl(lines)
+        mlines, keep = [], []
+        stats = {"maxdepth": 0, "results": 0, "ids": 0, "multi_trace": 0, "skipped": 0}
+        for line, i in zip(lines, impl):
+            case = json.loads(line)
+            if i.get("outcome") == "timeout":
+                stats["skipped"] += 1
+                continue
+            if i.get("outcome") != "ok":
+                ctx.violation(f"C12:impl-{i.get('outcome')}", f"declarative profile: {i.get('outcome')}: {str(i.get('err'))[:200]}", {"case": case, "impl": i})
+                continue
+            doc = i["report"]
+            rep = doc[0]["doc:encodes"][0] if isinstance(doc, list) and len(doc) == 1 and len(doc[0].get("doc:encodes", [])) == 1 else None
+            if rep is None or rep.get("@id") != "validation-report":
+                ctx.violation("C12:instance", "report is not one dialect instance encoding one validation-report node", {"case": case, "impl": i})
+                continue
+            results = rep.get("result", [])
+            levels = {"violation": [], "warning": [], "info": []}
+            for r in results:
+                sev = str(r.get("resultSeverity", "")).rsplit("#", 1)[-1].lower()
+                levels.setdefault(sev, []).append(r)
+            mlines.append(json.dumps({"op": "c12", "levels": levels}))
+            keep.append((case, i, doc, results))
+        model = run_model(mlines) if mlines else []
+        bad = 0
+        for (case, i, doc, results), m in zip(keep, model):
+            node_ids = {n["id"] for n in case["graph"]}
+            names = {v["name"] for v in case["validations"]}
+            all_ids = []
+            walk_ids(doc, all_ids, 0, stats)
+            res_ids = []
+            walk_ids(results, res_ids)
+            stats["results"] += len(results)
+            stats["ids"] += len(all_ids)
+            stats["multi_trace"] += sum(1 for r in results if len(r.get("trace", [])) > 1)
+            desc = None
+            if "error" in m:
+                desc = ("model-error", m["error"])
+            elif len(set(all_ids)) != len(all_ids):
+                dup = sorted(x for x in set(all_ids) if all_ids.count(x) > 1)[:3]
+                desc = ("duplicate-id", f"@id values occur twice in one report: {dup}")
+            elif not m["wf"]:
+                desc = ("shape", "a result tree is outside the shape for which id uniqueness is proved (two arrays of typed nodes under one parent, or a key with `_`/digits)")
+            elif sorted(res_ids) != m["ids"]:
+                only_real = sorted(set(res_ids) - set(m["ids"]))[:3]
+                only_model = sorted(set(m["ids"]) - set(res_ids))[:3]
+                desc = ("ids", f"ids in the report differ from the positional scheme: only in report {only_real}, only in model {only_model}")
+            else:
+                for r in results:
+                    e = check_result_shape(r, node_ids, names)
+                    if e:
+                        desc = ("result-shape", e)
+                        break
+            if desc:
+                bad += 1
+                ctx.violation("C12:" + desc[0], desc[1], {"case": {k: case[k] for k in case if k != "data"}, "report": doc})
+        ctx.coverage.setdefault("streams", {})["c12"] = dict(stats, reports=len(keep))
+        ctx.coverage["evaluations"] = len(lines)
+        ctx.coverage["distinct_nontrivial"] = sum(1 for (_, _, _, rs) in keep if rs)
+        if keep:
+            ctx.samples.append({"stream": "c12", "validations": keep[0][0]["validations"], "n_results": len(keep[0][3])})
+        ctx.oblige("correspondence:ids of real reports = assignIds of the result trees; result trees satisfy WF; groundedness and completeness of every result", bad == 0 and not ctx.violations)
+    except Broken as b:
+        broken.append(b)
+    ctx.coverage["rule"] = ("random declarative profiles with nested/quantified constraints wrapped 1..3 levels deep (several traces per result, several sub-results per trace), validations on all three levels, link-heavy graphs; "
+                            "every @id of the real report is compared with the Lean model of defineIdRecursively; non-trivial = the report has results")
+    ctx.assumptions += ["the result shape (which keys hold typed children) is whatever the real report contains: each real result tree is checked against the decidable WF predicate the uniqueness theorem needs"]
+    return conclude(ctx, broken, trusted=TRUST_COMMON)
+
+
+# ------------------------------------------------------------------ C14
+
+C14_THEOREMS = ["Acv.C14.readNat_showNat", "Acv.C14.showNat_digits", "Acv.C14.digitRuns_range", "Acv.C14.parseRange_fmtRange",
+                "Acv.C14.showNat_injective", "Acv.C14.digitRuns_range_junk", "Acv.C14.parseRange_junk",
+                "Acv.C14.lexical_iff", "Acv.C14.property_entries_ignored", "Acv.C14.file_is_listing_location",
+                "Acv.C14.file_unique_listing", "Acv.C14.no_sourcemaps_no_location", "Acv.C14.location_numbers"]
+
+
+def cmp_c14(case, i, m):
+    if "error" in m:
+        return ("model-error", "model driver rejected the case: " + m["error"])
+    if i.get("outcome") != "ok":
+        return ("impl-" + str(i.get("outcome")), f"real code gave {i.get('outcome')}: {str(i.get('err'))[:200]}")
+    for t in case["targets"]:
+        real = i["byFocus"].get(t)
+        exp = m["byFocus"][t]
+        if real is None:
+            return ("missing-result", f"node {t} is not reported at all")
+        if real["location"] != exp:
+            return ("result-location", f"node {t}: result location {real['location']} but its lexical entry says {exp}")
+        for tl in real["traceLocations"]:
+            if tl != exp:
+                return ("trace-location", f"node {t}: trace location {tl} but its lexical entry says {exp}")
+    if not i.get("sameWithoutMaps"):
+        return ("maps-change-results", "results with and without source maps differ in more than the location")
+    return None
+
+
+def check_C14(ctx):
+    broken = []
+    try:
+        build_harness()
+    except Broken as b:
+        return conclude(ctx, [b])
+    broken += prove(ctx, "Acv.Props.C14Index", C14_THEOREMS)
+    try:
+        lines, impl, model = corr(ctx, "c14", 250 if ctx.quick() else 8000, cmp_c14)
+        nloc = sum(1 for m in model for v in m.get("byFocus", {}).values() if v)
+        ctx.coverage["streams"]["c14"]["nodes_with_location"] = nloc
+        ctx.coverage["distinct_nontrivial"] = sum(1 for m in model if any(m.get("byFocus", {}).values()))
+        ctx.oblige("correspondence:c14 result and trace locations vs lexical index model", not ctx.violations)
+    except Broken as b:
+        broken.append(b)
+    ctx.coverage["rule"] = ("1..6 target nodes; per node a node-level lexical entry, a property-level entry only, both, or none; ranges with magnitudes 0, <10, <1e5, ~2^53 and up to 30 digits; 0..3 additional "
+                            "source files listing random subsets of the nodes (a node may be listed by several); data without any source maps; also checked: the same graph without source maps gives identical results minus locations")
+    ctx.assumptions += ["regex.find_n and to_number of the engine are modelled by digitRuns/readNat (tied by this correspondence, including 30-digit numbers)"]
+    return conclude(ctx, broken, trusted=TRUST_COMMON)
